@@ -22,9 +22,9 @@ import (
 type c08Set map[string]bool
 
 func c08Query(t *testing.T, ctx context.Context, db *DB, filter string) (c08Set, error) {
-	q := `query { Users { _docID } }`
+	q := `query { Users { k } }`
 	if filter != "" {
-		q = fmt.Sprintf(`query { Users(filter: %s) { _docID } }`, filter)
+		q = fmt.Sprintf(`query { Users(filter: %s) { k } }`, filter)
 	}
 	var res c08Set
 	var err error
@@ -43,7 +43,7 @@ func c08Query(t *testing.T, ctx context.Context, db *DB, filter string) (c08Set,
 		m, _ := out.GQL.Data.(map[string]any)
 		rows, _ := m["Users"].([]map[string]any)
 		for _, r := range rows {
-			id := fmt.Sprint(r["_docID"])
+			id := fmt.Sprintf("doc%v", r["k"])
 			if res[id] {
 				err = fmt.Errorf("document %s returned twice", id)
 			}
@@ -56,7 +56,7 @@ func c08Query(t *testing.T, ctx context.Context, db *DB, filter string) (c08Set,
 func (a c08Set) String() string {
 	var ks []string
 	for k := range a {
-		ks = append(ks, k[len(k)-4:])
+		ks = append(ks, k)
 	}
 	sort.Strings(ks)
 	return "{" + strings.Join(ks, ",") + "}"
@@ -114,17 +114,20 @@ type c08Law struct {
 func TestGovcC08FilterLaws(t *testing.T) {
 	ctx := context.Background()
 	docs := []string{
-		`{"name":"a","age":1,"score":1.5,"ok":true}`,
-		`{"name":"a","age":2,"score":-1.5,"ok":false}`,
-		`{"name":"b","age":1,"score":0.0}`,
-		`{"name":"b","age":null,"score":2.5,"ok":true}`,
-		`{"name":null,"age":2,"score":null,"ok":false}`,
-		`{"name":"ab","age":3,"ok":null}`,
-		`{"name":"","age":0,"score":1.5,"ok":true}`,
+		`{"k":0,"name":"a","age":1,"score":1.5,"ok":true,"tags":["x","y"]}`,
+		`{"k":1,"name":"a","age":2,"score":-1.5,"ok":false,"tags":["x"]}`,
+		`{"k":2,"name":"b","age":1,"score":0.0,"tags":["y","z","x"]}`,
+		`{"k":3,"name":"b","age":null,"score":2.5,"ok":true,"tags":["z"]}`,
+		`{"k":4,"name":null,"age":2,"score":null,"ok":false,"tags":["x","z"]}`,
+		`{"k":5,"name":"ab","age":3,"ok":null,"tags":["y"]}`,
+		`{"k":6,"name":"","age":0,"score":1.5,"ok":true,"tags":["x","y"]}`,
+		`{"k":7,"name":"Alice","age":5,"score":3.5,"ok":false,"tags":["q","r"]}`,
 	}
 	schemas := map[string]string{
-		"no index": `type Users { name: String age: Int score: Float ok: Boolean }`,
-		"indexed":  `type Users { name: String @index age: Int @index score: Float @index ok: Boolean @index }`,
+		"no index": `type Users { k: Int name: String age: Int score: Float ok: Boolean tags: [String!] }`,
+		"indexed":  `type Users { k: Int name: String @index age: Int @index score: Float @index ok: Boolean @index tags: [String!] }`,
+		// a composite index whose second field is an array: one index entry per array element
+		"composite with array": `type Users @index(includes: [{field: "name"}, {field: "tags"}]) { k: Int name: String age: Int score: Float ok: Boolean tags: [String!] }`,
 	}
 	type field struct {
 		name string
@@ -139,7 +142,11 @@ func TestGovcC08FilterLaws(t *testing.T) {
 	}
 	var problems []c08Law
 	cases := 0
-	for sname, schema := range schemas {
+	// the same condition on the collection without and with the indexes returns the same documents
+	// (documents are identified by their field k)
+	plain := map[string]c08Set{}
+	for _, sname := range []string{"no index", "indexed", "composite with array"} {
+		schema := schemas[sname]
 		db, _, _ := c05NewDB(t, ctx)
 		c05Users(t, ctx, db, schema, docs...)
 		add := func(law, what string) {
@@ -154,6 +161,11 @@ func TestGovcC08FilterLaws(t *testing.T) {
 			if err != nil {
 				add("no request fails or panics", fmt.Sprintf("%s: %v", f, err))
 				return c08Set{}
+			}
+			if sname == "no index" {
+				plain[f] = r
+			} else if p, ok := plain[f]; ok && !c08Eq(p, r) {
+				add("with the indexes = without the indexes", fmt.Sprintf("%s: without %v, with %v", f, p, r))
 			}
 			return r
 		}
@@ -198,6 +210,25 @@ func TestGovcC08FilterLaws(t *testing.T) {
 					}
 				}
 			}
+		}
+		// string patterns: the negated operators are the complements, the case-insensitive ones contain the
+		// case-sensitive ones
+		for _, pat := range []string{`"a%"`, `"%b"`, `"%a%"`, `"a"`, `"a%b"`, `"A%e"`, `"%"`, `""`, `"%li%"`} {
+			like := q(fmt.Sprintf(`{name: {_like: %s}}`, pat))
+			nlike := q(fmt.Sprintf(`{name: {_nlike: %s}}`, pat))
+			ilike := q(fmt.Sprintf(`{name: {_ilike: %s}}`, pat))
+			nilike := q(fmt.Sprintf(`{name: {_nilike: %s}}`, pat))
+			cases += 3
+			if !c08Eq(nlike, c08Minus(all, like)) {
+				add("_nlike p = all \\ _like p", fmt.Sprintf("%s: _like %v, _nlike %v, all %v", pat, like, nlike, all))
+			}
+			if !c08Eq(nilike, c08Minus(all, ilike)) {
+				add("_nilike p = all \\ _ilike p", fmt.Sprintf("%s: _ilike %v, _nilike %v, all %v", pat, ilike, nilike, all))
+			}
+			if len(c08Minus(like, ilike)) != 0 {
+				add("_like p is contained in _ilike p", fmt.Sprintf("%s: _like %v, _ilike %v", pat, like, ilike))
+			}
+			atoms = append(atoms, fmt.Sprintf(`{name: {_like: %s}}`, pat))
 		}
 		res := map[string]c08Set{}
 		for _, a := range atoms {
